@@ -2,6 +2,7 @@ package schema
 
 import (
 	"fmt"
+	"strings"
 
 	"pgregory.net/rapid"
 
@@ -116,6 +117,33 @@ func AddIdentities(t *rapid.T, set *ymodel.Set, max int) map[string]int {
 				m.Typedefs = append(m.Typedefs, &ymodel.Typedef{Name: tn, Type: &ymodel.TypeRef{Name: "identityref", Base: b}})
 				m.Nodes = append(m.Nodes, &ymodel.Node{Kind: ymodel.KLeaf, Name: fmt.Sprintf("idtl%d", nleaf), Type: &ymodel.TypeRef{Name: tn}})
 				labels["identityref-typedef"]++
+			}
+			// a union of identityrefs: two members whose bases are different identities, by preference of one
+			// name (equal names in different modules are common here) - two members, whatever the names
+			if len(vis) > 1 && rapid.Bool().Draw(t, "identityref-union") {
+				bare := func(x string) string { return x[strings.LastIndexByte(x, ':')+1:] }
+				// the own prefix and no prefix spell the same identity
+				norm := func(x string) string { return strings.TrimPrefix(x, m.Prefix+":") }
+				var same, other []string
+				for _, x := range vis {
+					if norm(x) == norm(b) {
+						continue
+					}
+					other = append(other, x)
+					if bare(x) == bare(b) {
+						same = append(same, x)
+					}
+				}
+				b2 := ""
+				if len(same) > 0 {
+					b2 = same[rapid.IntRange(0, len(same)-1).Draw(t, "union-second-base-of-that-name")]
+				} else if len(other) > 0 {
+					b2 = other[rapid.IntRange(0, len(other)-1).Draw(t, "union-second-base")]
+				}
+				if b2 != "" {
+					m.Nodes = append(m.Nodes, &ymodel.Node{Kind: ymodel.KLeaf, Name: fmt.Sprintf("idu%d", nleaf), Type: &ymodel.TypeRef{Name: "union", Union: []*ymodel.TypeRef{{Name: "identityref", Base: b}, {Name: "string"}, {Name: "identityref", Base: b2}}}})
+					labels["identityref-union"]++
+				}
 			}
 		}
 	}
